@@ -22,6 +22,8 @@ struct Src {
     /// generation of the connection behind this key: a stream object of an older generation belongs to a connection
     /// that was superseded by a newer one under the same key (it stays open and silent)
     gen: usize,
+    /// what this source has produced is already in the stream's own buffer: handing it out needs no transport read
+    buffered: bool,
 }
 struct World {
     script: Vec<Value>,
@@ -35,6 +37,11 @@ struct World {
     exhausted: bool,
     polls_this_call: usize,
     livelocked: bool,
+    /// a runtime's cooperative budget as tokio implements it (model-free scripts): reads per poll of the receiver task; a read
+    /// beyond it is refused - Pending although data is there - and its waker is woken only after the task has yielded
+    budget: Option<usize>,
+    budget_left: usize,
+    deferred: Vec<Waker>,
 }
 type Wd = Arc<Mutex<World>>;
 struct Scripted {
@@ -138,6 +145,14 @@ fn other_thread_action(w: &Wd, e: &Value) {
             w.lock().unwrap().exhausted = true;
             ev(w, json!({"ev":"exhaust"}));
         }
+        "Budget" => {
+            let mut g = w.lock().unwrap();
+            g.budget = e.get("n").and_then(|v| v.as_u64()).map(|n| n as usize);
+            g.budget_left = g.budget.unwrap_or(0);
+        }
+        "Buffered" => {
+            w.lock().unwrap().srcs.entry(k.clone()).or_default().buffered = true;
+        }
         "Remove" => {
             let h = w.lock().unwrap().handle.clone().unwrap();
             ev(w, json!({"ev":"rm","k":k}));
@@ -147,7 +162,7 @@ fn other_thread_action(w: &Wd, e: &Value) {
     }
 }
 fn is_other(e: &Value) -> bool {
-    matches!(e["a"].as_str().unwrap_or(""), "Insert" | "Reinsert" | "Produce" | "Close" | "Fire" | "Remove" | "Wake" | "StaleWake" | "StaleFire" | "Exhaust")
+    matches!(e["a"].as_str().unwrap_or(""), "Insert" | "Reinsert" | "Produce" | "Close" | "Fire" | "Remove" | "Wake" | "StaleWake" | "StaleFire" | "Exhaust" | "Budget" | "Buffered")
 }
 
 impl Stream for Scripted {
@@ -261,6 +276,18 @@ impl Stream for Scripted {
             }
             return Poll::Pending;
         }
+        {
+            // the cooperative budget: a source whose data is not buffered needs a transport read
+            let mut g = w.lock().unwrap();
+            if g.budget.is_some() && !g.srcs.get(&self.k).map(|s| s.buffered).unwrap_or(false) {
+                if g.budget_left == 0 {
+                    g.deferred.push(cx.waker().clone());
+                    g.out.push(json!({"ev":"spoll","k":self.k,"res":"pending","deferred":true}));
+                    return Poll::Pending;
+                }
+                g.budget_left -= 1;
+            }
+        }
         let res = {
             let mut g = w.lock().unwrap();
             let s = g.srcs.entry(self.k.clone()).or_default();
@@ -370,7 +397,7 @@ pub fn replay(scripts: &[Value]) -> (Vec<Value>, FqStats) {
         st.behaviours += 1;
         st.steps += script.len();
         let mut probe: FairQueueProbe<Scripted, String> = FairQueueProbe::new(true);
-        let w: Wd = Arc::new(Mutex::new(World { script, cur: 0, srcs: HashMap::new(), handle: Some(probe.handle()), drift: vec![], out: vec![], exhausted: false, polls_this_call: 0, livelocked: false }));
+        let w: Wd = Arc::new(Mutex::new(World { script, cur: 0, srcs: HashMap::new(), handle: Some(probe.handle()), drift: vec![], out: vec![], exhausted: false, polls_this_call: 0, livelocked: false, budget: None, budget_left: 0, deferred: vec![] }));
         ev(&w, json!({"ev":"reset","scen":st.behaviours}));
         // one counting waker per receiver future ("generation"): a cancelled recv's waker is dead, a wake
         // that only reaches a dead waker does not wake the current receiver
@@ -409,6 +436,15 @@ pub fn replay(scripts: &[Value]) -> (Vec<Value>, FqStats) {
                 Poll::Pending => {
                     *parked = true;
                     ev(w, json!({"ev":"ret","res":"pending"}));
+                    // the receiver task has given control back: fresh budget, deferred wake-ups are delivered
+                    let ws = {
+                        let mut g = w.lock().unwrap();
+                        g.budget_left = g.budget.unwrap_or(0);
+                        std::mem::take(&mut g.deferred)
+                    };
+                    for wk in ws {
+                        wk.wake();
+                    }
                 }
             }
             r
